@@ -1,5 +1,6 @@
 """Sidecar contracts for btc_hd_wallet/ripemd.py (C05): the pure-Python RIPEMD-160 against the generative
 spec (spec/ripemd160.py), in low-bits mode (pyvc/lowbits.py)."""
+from . import summaries as _SUM_ALWAYS      # noqa: F401,E402  (summaries installed independent of import order)
 import z3
 from pyvc import logic as L
 from pyvc import engine as E
